@@ -30,6 +30,11 @@ def match(findings: T.List[T.Dict[str, T.Any]], prop: str, signature: str) -> T.
     for f in findings:
         if f.get('status') != 'open' or f.get('property') != prop:
             continue
-        if fnmatch.fnmatchcase(signature, f['signature']):
+        pat = f['signature']
+        if signature == pat:
+            return f
+        # only * and ? are wildcards; brackets are literal (signatures contain JSON paths like "[].depends")
+        pat = pat.replace('[', '\x00').replace(']', '[]]').replace('\x00', '[[]')
+        if fnmatch.fnmatchcase(signature, pat):
             return f
     return None
